@@ -278,6 +278,8 @@ def run(prop, tier, seed, replay=None, finish=True):
     audited = 0
     by_chunk = {}
     for f in mine:
+        if not f.get("translated", True):
+            continue
         ci = meta["thm_chunk"].get(f["key"])
         if ci is None or ci in bad_chunks:
             continue   # a chunk with a failing theorem has no compiled module; its theorems are reported below
@@ -322,7 +324,7 @@ def run(prop, tier, seed, replay=None, finish=True):
         with open(BASELINE) as fh:
             base = json.load(fh)
         want = set(base.get(prop, []))
-        have = {f["key"] for f in mine}
+        have = {f["key"] for f in mine if f.get("translated", True)}
         lost = sorted(want - have)
 
     # 5. correspondence
@@ -402,6 +404,32 @@ def run(prop, tier, seed, replay=None, finish=True):
         else:
             V.violation("thm_%s" % k, {"obligation": n, "overload": k, "what": "theorem no longer checks against the regenerated model; no failing input found on %d targeted cases" % len(l2),
                                        "lean_error": msg}, no_failing_input=True)
+    sig_only = {f["key"]: f for f in mine if not f.get("translated", True)}
+    for k in list(lost):
+        if k not in sig_only:
+            continue
+        lost.remove(k)
+        # the body left the translator's dialect: no model, no theorem.  Search the implementation against the specification.
+        if k in by_fn and any("kind=SPEC" in x[0] or "kind=BOTH" in x[0] for x in by_fn[k]):
+            continue     # already reported with a concrete failing input
+        l2, _ = gen_inputs(meta, prop if SET["by_prop"] else None, seed + 7919, "thorough", only_keys={k}, per_fn=20000)
+        h2, c2 = run_harness(binp, l2)
+        h2r, c2r = run_harness(bins["R"], l2)
+        h2 = h2 + h2r
+        v2 = run_driver(SET["mode"], h2)
+        hit = [(v, l) for v, l in zip(v2, h2) if v.startswith("DIFF") and ("kind=SPEC" in v or "kind=BOTH" in v)]
+        why = sig_only[k].get("untranslatable")
+        if hit:
+            hit = sorted(hit, key=lambda x: len(x[1]))[:5]
+            V.violation("impl_%s" % k, {"obligation": "%s_exact" % k, "overload": k,
+                                        "what": "the body is outside the translator's dialect (%s), so its theorem cannot be stated; "
+                                                "the targeted search found inputs on which the implementation violates the specification" % why,
+                                        "lines": [l for _, l in hit], "driver": [v for v, _ in hit]})
+        else:
+            V.violation("thm_%s" % k, {"obligation": "%s_exact" % k, "overload": k,
+                                       "what": "the body is outside the translator's dialect (%s): the theorem can no longer be stated; "
+                                               "no failing input found on %d targeted cases (implementation vs specification)" % (why, len(h2))},
+                        no_failing_input=True)
     for k in lost:
         V.violation("lost_%s" % k, {"obligation": "overload %s is translated and specified (baseline translate/integer_baseline.json)" % k,
                                     "what": "the overload is no longer in the translator's dialect or no longer present",
